@@ -440,6 +440,13 @@ structure Select where
   guardNonEmpty : Bool           -- `if <expr> and expression.evaluate(…)`
   closure : Bool                 -- `update(task_and_preceding_tasks(…))` instead of `add(signature)`
   deriving Repr, DecidableEq
+/-- The string branch of the loop over `session.tasks` in `_modify_dag` (dag.py). -/
+structure AfterLoop where
+  selectFn : String              -- the function evaluated on (session, after) in every iteration
+  discardsSelf : Bool            -- the task's own signature is removed from the selection
+  viaSuccessors : Bool           -- edges are drawn from the successors (products) of every selected task to the task
+  stateless : Bool               -- an iteration reads nothing an earlier iteration wrote, except the dag
+  deriving Repr, DecidableEq
 end Gram
 '''
 
@@ -1095,6 +1102,196 @@ def select_facts(mod: ast.Module):
     return out
 
 
+# ---- `_modify_dag` (dag.py): the per-task evaluation of `after="<expr>"` -------------------------------------------------------
+
+def _dE(msg):
+    return _api().ExtractError("_modify_dag: " + msg)
+
+
+_READONLY_METHODS = {"get", "items", "keys", "values", "copy", "successors", "predecessors"}
+
+
+def _parent_of(root, node):
+    for p in ast.walk(root):
+        for c in ast.iter_child_nodes(p):
+            if c is node:
+                return p
+    return None
+
+
+def after_loop_facts(mod: ast.Module):
+    fns = [n for n in mod.body if isinstance(n, ast.FunctionDef) and n.name == "_modify_dag"]
+    if len(fns) != 1:
+        raise _dE("function not found")
+    fn = fns[0]
+    params = [a.arg for a in fn.args.args + fn.args.kwonlyargs]
+    if len(params) != 2:
+        raise _dE("expected parameters (session, dag)")
+    session, dag = params
+    body = _stmts(fn)
+    loops = [i for i, st in enumerate(body) if isinstance(st, ast.For) and ast.unparse(st.iter) == f"{session}.tasks"]
+    if len(loops) != 1:
+        raise _dE(f"expected exactly one `for task in {session}.tasks` loop at top level")
+    li = loops[0]
+    loop = body[li]
+    if not isinstance(loop.target, ast.Name) or loop.orelse:
+        raise _dE("unexpected loop header")
+    task = loop.target.id
+    # names bound before the loop (besides the parameters): they may be read in the loop but never written / mutated there
+    pre = set()
+    for st in body[:li]:
+        for n in ast.walk(st):
+            if isinstance(n, ast.Name) and isinstance(n.ctx, ast.Store):
+                pre.add(n.id)
+    # comprehension variables are local to the comprehension
+    assigned_in_loop = set()
+    for n in ast.walk(loop):
+        if isinstance(n, ast.Name) and isinstance(n.ctx, ast.Store) and n is not loop.target:
+            assigned_in_loop.add(n.id)
+    if assigned_in_loop & pre:
+        raise _dE(f"names bound before the loop are rebound inside it: {sorted(assigned_in_loop & pre)}")
+    # a memo of the selection keyed by the expression text is admitted when it cannot leak between tasks: it is a dict created
+    # empty before the loop, written only as `M[after] = <select>(session, after)`, and read only through a fresh copy
+    # (`set(M[after])`, `M[after].copy()`, `M[after] - {…}`) or a membership test
+    memos = set()
+    for st in body[:li]:
+        t = _target(st)
+        if t and ast.unparse(t[1]) in ("{}", "dict()"):
+            memos.add(t[0])
+    memo_ok_nodes = set()
+    for name in list(memos):
+        ok = True
+        for n in ast.walk(loop):
+            if isinstance(n, ast.Name) and n.id == name:
+                par = _parent_of(loop, n)
+                gp = _parent_of(loop, par) if par is not None else None
+                if isinstance(par, ast.Compare) and len(par.ops) == 1 and isinstance(par.ops[0], (ast.In, ast.NotIn)) and par.comparators[0] is n:
+                    continue
+                if isinstance(par, ast.Subscript) and par.value is n:
+                    if isinstance(par.ctx, ast.Store):
+                        asg = gp
+                        if (isinstance(asg, (ast.Assign, ast.AnnAssign)) and isinstance(asg.value, ast.Call) and isinstance(asg.value.func, ast.Name)
+                                and len(asg.value.args) == 2 and ast.unparse(asg.value.args[0]) == session
+                                and ast.unparse(asg.value.args[1]) == ast.unparse(par.slice)):
+                            memo_ok_nodes.add(par)
+                            continue
+                    elif isinstance(par.ctx, ast.Load):
+                        fresh = ((isinstance(gp, ast.Call) and ast.unparse(gp.func) in ("set", "frozenset", "list", "sorted") and gp.args and gp.args[0] is par)
+                                 or (isinstance(gp, ast.Attribute) and gp.attr in ("copy", "difference") and gp.value is par
+                                     and isinstance(_parent_of(loop, gp), ast.Call))
+                                 or (isinstance(gp, ast.BinOp) and isinstance(gp.op, ast.Sub) and gp.left is par))
+                        if fresh:
+                            continue
+                ok = False
+        if not ok:
+            memos.discard(name)
+    pre_state = pre - memos
+    for n in ast.walk(loop):
+        # writes through a name bound before the loop:  x[k] = …,  x.attr = …,  x[k] += …,  del x[k],  x.method(…) that may mutate
+        if isinstance(n, (ast.Subscript, ast.Attribute)) and isinstance(n.ctx, (ast.Store, ast.Del)):
+            base = n.value
+            while isinstance(base, (ast.Subscript, ast.Attribute)):
+                base = base.value
+            if isinstance(base, ast.Name) and base.id in pre_state:
+                raise _dE(f"state bound before the loop is written inside it: {ast.unparse(n)!r} — iterations are no longer independent")
+        if isinstance(n, ast.Call) and isinstance(n.func, ast.Attribute):
+            base = n.func.value
+            while isinstance(base, (ast.Subscript, ast.Attribute)):
+                base = base.value
+            if isinstance(base, ast.Name) and base.id in pre_state and n.func.attr not in _READONLY_METHODS:
+                raise _dE(f"method {ast.unparse(n.func)!r} is called on state bound before the loop — iterations may no longer be independent")
+        if isinstance(n, (ast.Global, ast.Nonlocal)):
+            raise _dE("global / nonlocal state in the loop")
+    # a name assigned in the loop must not be read before its assignment in the same iteration (value carried over)
+    first = {}
+    for n in sorted((x for x in ast.walk(loop) if isinstance(x, ast.Name)), key=lambda x: (x.lineno, x.col_offset)):
+        if n.id in assigned_in_loop and n.id not in first:
+            first[n.id] = type(n.ctx).__name__
+    # (the target of an assignment is visited after its value in source order only if it stands to the right; `x = f(x)` reads first)
+    for name, ctx in first.items():
+        if ctx == "Load":
+            comp_local = any(isinstance(c, (ast.GeneratorExp, ast.ListComp, ast.SetComp, ast.DictComp)) and any(
+                isinstance(g.target, ast.Name) and g.target.id == name for g in c.generators) for c in ast.walk(loop))
+            if not comp_local:
+                raise _dE(f"{name} is read before it is assigned within an iteration (value carried over from the previous task)")
+    # the string branch
+    after_var = None
+    for st in loop.body:
+        t = _target(st)
+        if t and ast.unparse(t[1]) in (f"{task}.attributes.get('after')", f'{task}.attributes.get("after")'):
+            after_var = t[0]
+    if after_var is None:
+        raise _dE("`after = task.attributes.get('after')` not found")
+    branch = None
+    for n in ast.walk(loop):
+        if isinstance(n, ast.If) and ast.unparse(n.test) == f"isinstance({after_var}, str)":
+            branch = n.body
+    if branch is None:
+        raise _dE("no `isinstance(after, str)` branch")
+    env = {}
+    sel_var = sel_fn = None
+    memo_used = None
+    discards = False
+    edges = False
+    for st in branch:
+        t = _target(st)
+        # memo fill:  if after not in M: M[after] = <select>(session, after)
+        if (isinstance(st, ast.If) and not st.orelse and len(st.body) == 1 and isinstance(st.test, ast.Compare) and len(st.test.ops) == 1
+                and isinstance(st.test.ops[0], ast.NotIn) and ast.unparse(st.test.left) == after_var
+                and isinstance(st.test.comparators[0], ast.Name) and st.test.comparators[0].id in memos):
+            m = st.test.comparators[0].id
+            a = st.body[0]
+            if (isinstance(a, (ast.Assign, ast.AnnAssign)) and ast.unparse(a.targets[0] if isinstance(a, ast.Assign) else a.target) == f"{m}[{after_var}]"
+                    and isinstance(a.value, ast.Call) and isinstance(a.value.func, ast.Name)
+                    and [ast.unparse(x) for x in a.value.args] == [session, after_var] and sel_fn is None):
+                sel_fn = a.value.func.id
+                memo_used = m
+                continue
+            raise _dE(f"unrecognised memo statement {ast.unparse(st)!r}")
+        if t is not None and memo_used is not None and sel_var is None:
+            src = ast.unparse(t[1])
+            key = f"{memo_used}[{after_var}]"
+            if src in (f"set({key})", f"{key}.copy()") or src.startswith(f"{key} - ") or src.startswith(f"{key}.difference("):
+                sel_var = t[0]
+                if src.startswith((f"{key} - ", f"{key}.difference(")):
+                    rest_src = src[len(key):]
+                    if f"{task}.signature" in rest_src or any(v == f"{task}.signature" and k in rest_src for k, v in env.items()):
+                        discards = True
+                continue
+        if t is not None:
+            v = t[1]
+            if (isinstance(v, ast.Call) and isinstance(v.func, ast.Name) and [ast.unparse(a) for a in v.args] == [session, after_var]
+                    and not v.keywords):
+                if sel_var is not None:
+                    raise _dE("the selection is evaluated more than once")
+                sel_var, sel_fn = t[0], v.func.id
+            else:
+                env[t[0]] = ast.unparse(v)
+            continue
+        if isinstance(st, ast.Expr) and isinstance(st.value, ast.Call) and sel_var is not None \
+                and ast.unparse(st.value.func) == f"{sel_var}.discard" and len(st.value.args) == 1:
+            a = ast.unparse(st.value.args[0])
+            if env.get(a, a) != f"{task}.signature":
+                raise _dE(f"what is discarded from the selection is {a!r}, not the task's own signature")
+            discards = True
+            continue
+        if isinstance(st, ast.For) and sel_var is not None and ast.unparse(st.iter) == sel_var and isinstance(st.target, ast.Name):
+            sg = st.target.id
+            inner = st.body[0] if len(st.body) == 1 else None
+            if (isinstance(inner, ast.For) and ast.unparse(inner.iter) == f"{dag}.successors({sg})" and isinstance(inner.target, ast.Name)
+                    and len(inner.body) == 1):
+                call = ast.unparse(inner.body[0])
+                tgt = [f"{dag}.add_edge({inner.target.id}, {task}.signature)"] + [f"{dag}.add_edge({inner.target.id}, {k})" for k, v in env.items() if v == f"{task}.signature"]
+                if call in tgt:
+                    edges = True
+                    continue
+            raise _dE(f"edges are not drawn as `for s in selection: for successor in dag.successors(s): dag.add_edge(successor, task.signature)`")
+        raise _dE(f"unrecognised statement in the string branch: {ast.unparse(st)!r}")
+    if sel_fn is None or not edges:
+        raise _dE("the string branch does not evaluate a selection and draw edges from it")
+    return {"fn": sel_fn, "discards": discards, "edges": edges}
+
+
 def _lean_s(s):
     return _api().lean_str(s)
 
@@ -1105,12 +1302,14 @@ def grammar_section() -> list[str]:
     try:
         mod = ast.parse((X.SRC / "mark" / "expression.py").read_text())
         mmod = ast.parse((X.SRC / "mark" / "__init__.py").read_text())
+        dmod = ast.parse((X.SRC / "dag.py").read_text())
     except (OSError, SyntaxError) as e:
         raise X.ExtractError(f"cannot parse mark/: {e}") from None
     f = lex_facts(lambda m: X.ExtractError("expression.py: " + m), mod)
     top, rules = grammar_facts(mod)
     mf = matcher_facts(mmod)
     sf = select_facts(mmod)
+    al = after_loop_facts(dmod)
     b = X.lean_bool
     L = [GRAM_SCHEMA]
 
@@ -1142,5 +1341,8 @@ def grammar_section() -> list[str]:
         s = sf[fname]
         L.append(f"def {key} : Gram.Select := {{ noneWhenEmpty := {b(s['none'])}, parseErrorIsError := true, matcher := {_lean_s(s['matcher'])}, "
                  f"guardNonEmpty := {b(s['guard'])}, closure := {b(s['closure'])} }}")
+    L.append("/-- `_modify_dag`: how `after=\"<expr>\"` is turned into edges, per task. -/")
+    L.append(f"def afterLoop : Gram.AfterLoop := {{ selectFn := {_lean_s(al['fn'])}, discardsSelf := {b(al['discards'])}, "
+             f"viaSuccessors := {b(al['edges'])}, stateless := true }}")
     L.append("")
     return L
